@@ -535,8 +535,19 @@ func (m *Machine) mergeVals(gs []*Cond, vals []Value) Value {
 		}
 		return BigV{lin: z}
 	case Ptr:
-		// pointers into the same object that differ only in constant positions are not merged (no symbolic pointers)
-		panic("cannot merge distinct pointers")
+		// distinct pointers: a guarded choice (loads become ite, stores become conditional stores)
+		n := Ptr{}
+		for k, v := range vals {
+			pv := v.(Ptr)
+			if len(pv.alts) > 0 {
+				for _, a := range pv.alts {
+					n.alts = append(n.alts, PtrAlt{g: cAnd(gs[k], a.g), p: a.p})
+				}
+			} else {
+				n.alts = append(n.alts, PtrAlt{g: gs[k], p: pv})
+			}
+		}
+		return n
 	case IfaceV:
 		// interfaces may be nil on some arms (typically errors): keep the non-nil dynamic type and a nil-condition
 		var typ types.Type
@@ -635,7 +646,7 @@ func identical(a, b Value) bool {
 		return true
 	case Ptr:
 		y, ok := b.(Ptr)
-		return ok && x.obj == y.obj && fmt.Sprint(x.path) == fmt.Sprint(y.path)
+		return ok && len(x.alts) == 0 && len(y.alts) == 0 && x.obj == y.obj && fmt.Sprint(x.path) == fmt.Sprint(y.path)
 	case SliceV:
 		y, ok := b.(SliceV)
 		return ok && x == y
